@@ -133,12 +133,14 @@ class Image:
         self.secs.append(s)
         return s
 
-    def add_debuglink(self, filename, crc):
+    def add_debuglink(self, filename, crc, trailing=b''):
+        """File name, NUL, padding to a multiple of four, CRC (BFD / GDB read the checksum at that aligned position;
+        `trailing` bytes behind it belong to the section but to no field)."""
         fn = filename if isinstance(filename, bytes) else filename.encode()
         body = fn + b'\0'
         body += b'\0' * (-len(body) % 4)
         body += crc.to_bytes(4, self.raw.bo)
-        return self.add_section('.gnu_debuglink', body)
+        return self.add_section('.gnu_debuglink', body + trailing)
 
     # -- serialise
     def build(self):
